@@ -370,6 +370,10 @@ def plan(ctx: Ctx) -> list[dict]:
         })
 
     if ctx.quick:
+        for w in (1, 2, 3):
+            regions(w, 1, 1)
+            regions(w, 2, 1 if w < 3 else 5)
+        regions(2, 3, 2)
         for rad in radix_tuples(1):
             single(rad, 'full', 'grid', 'all')
         for rad in radix_tuples(2):
@@ -392,10 +396,6 @@ def plan(ctx: Ctx) -> list[dict]:
             seq(rad, 2, 'one', 'grid', True, 'few', 2)
         for b in range(3):
             edits(b, 1, True, 4)
-        for w in (1, 2, 3):
-            regions(w, 1, 1)
-            regions(w, 2, 1 if w < 3 else 5)
-        regions(2, 3, 2)
     else:
         for w in (1, 2, 3):
             for rad in radix_tuples(w):
